@@ -42,7 +42,7 @@ def run_c01(ctx):
     execs = []
     simexec.bind(t, ctx.stats, log=execs, default={"boundary": "process", "auto_workers": 3})
     sweep = G.gen_sweep(t, max_n=1024, kinds=KINDS, allow_cases=t.flag(1, 4, "with-cases"),
-                        max_args=5)
+                        max_args=5, allow_mixed=True)
     kind = sweep.kind
     argnames = sweep.case_args + [a for a, _ in sweep.combos] + list(sweep.constants)
     fn = calllog.make_fn(kind, argnames)
@@ -100,11 +100,11 @@ def run_c01(ctx):
             raise Violation("sweep-raised", "{} raised {}: {}".format(
                 st, type(e).__name__, short(str(e), 200)), site=xyz_site(e))
         # (i) exactly once each, nothing else
-        calls = sorted(k for _, k in calllog.LOG)
+        calls = sorted((k for _, k in calllog.LOG), key=repr)
         if calls != exp_calls:
             extra = [c for c in calls if c not in exp_calls]
             missing = [c for c in exp_calls if c not in calls]
-            dup = sorted({c for c in calls if calls.count(c) > 1})
+            dup = sorted({c for c in calls if calls.count(c) > 1}, key=repr)
             raise Violation("calls-not-exactly-once",
                             "{}: {} calls for {} settings; unexpected {}, never called {}, "
                             "called more than once {}".format(
